@@ -31,6 +31,32 @@ def flag_nonzero(a):
     ld = is_call_result(A("load"))
     return a.kind == "cmp" and a.op == "Ne" and ld(a.a) and is_const(0)(a.b)
 
+def would_block(d, truth):
+    """edge predicate: the comparison of an io error with EAGAIN / EWOULDBLOCK / ErrorKind::WouldBlock in function d came out `truth`"""
+    WB = ("EAGAIN", "EWOULDBLOCK", "WouldBlock")
+    def p(a):
+        # `match e { Err(Errno::EAGAIN) => .., Err(e) => .. }`: the test is a discriminant switch on the error code
+        if a.kind == "variant" and re.search(r"Errno|ErrorKind", str(type_of_origin(d, simplify(a.origin)) or "") + fmt_origin(a.origin)):
+            return (a.name in WB) is truth
+        if a.kind == "variant_in" and re.search(r"Errno|ErrorKind", str(type_of_origin(d, simplify(a.origin)) or "") + fmt_origin(a.origin)) and a.names:
+            return (not truth) and not any(n in WB for n in a.names)
+        # ... of a foreign enum (nix::errno::Errno has no variant table in the facts): discriminant value 11 = EAGAIN = EWOULDBLOCK on Linux
+        if a.kind == "val" and simplify(a.origin)[0] == "discr" and a.vals == (11,) and root_of(simplify(a.origin)[1])[0] == "call" and \
+           re.search(r"^(nix|libc|std::io|socket2)", root_of(simplify(a.origin)[1])[2] or ""):
+            return a.eq is truth
+        if a.kind != "call" or not re.search(r"PartialEq>::(eq|ne)$", a.name or ""): return False
+        eq = a.truth if (a.name or "").endswith("::eq") else (not a.truth)
+        if eq is not truth: return False
+        t = d.term(a.site)
+        def names(o, k=0):
+            o = simplify(o)
+            if o[0] == "const": return " ".join(str(x) for x in (o[3] or ())) + " " + (o[1] or "")
+            if o[0] in ("ref", "deref", "cast", "field") and k < 5: return names(o[1], k + 1)
+            if o[0] == "agg": return str(o[2]) + " " + " ".join(names(x, k + 1) for x in (o[3] or ()))
+            return ""
+        return any(re.search(r"EAGAIN|EWOULDBLOCK|WouldBlock", names(trace_operand(d, x))) for x in t["args"][:2])
+    return p
+
 def check(ctx):
     an = ctx.an
     impls = ctx.prog.impls_of(ES)
@@ -95,6 +121,20 @@ def check(ctx):
         ctx.ob("R-SIB", d.id, "done/no-clear-before-yield:" + short, bool(es) and not bad2, "nothing clears io_flag between the re-check and the yield" if es and not bad2 else
                "%s::done clears io_flag between its re-check and yield_with_io: an edge that arrived in between is lost and the coroutine stays suspended" % short, d.where(sorted(ys)[0]))
         ctx.must_follow(d.id, YIELD, Call(r"may::io::sys::co_io_result", transitive=False), "done/result-after-resume:" + short, "after a resume the passed-in result (timeout) is looked at first", rule="R-SIB")
+        # would-block classification: the source goes on to the flag re-check / yield exactly when the syscall failed with EAGAIN/EWOULDBLOCK;
+        # any other error is returned (a negated test hands EAGAIN to the caller of a blocking API and parks on a real error)
+        wb = lambda truth, d=d: would_block(d, truth)
+        wbt = ctx.edges(d, wb(True))
+        if wbt:
+            first_err = [x for x in lds if True]
+            ctx.guarded(d.id, lambda g, lds=lds: sorted(lds), wb(True), "done/recheck-only-after-would-block:" + short, "%s::done re-checks io_flag (and may yield) only after its syscall reported would-block" % short, rule="R-SIB",
+                        invalidate=SYSCALL, pred_label="edge `err == EAGAIN/EWOULDBLOCK`")
+            r = an.reach(d, [Point(tb, 0) for _, tb, _ in wbt], blocked=set(lds))
+            badw = [x for x in d.ret_points() if x in r]
+            ctx.ob("R-SIB", d.id, "done/would-block-never-returned:" + short, not badw, "a would-block result never leaves %s::done: it always leads to the io_flag re-check" % short if not badw else
+                   "%s::done can return on the would-block edge: the caller of a blocking API gets EAGAIN/WouldBlock instead of waiting" % short, d.where(badw[0]) if badw else d.where(sorted(lds)[0]))
+        elif short not in ("TcpStreamConnect", "UnixStreamConnect"):
+            ctx.missing("R-SIB", d.id, "done/recheck-only-after-would-block:" + short, "no comparison with EAGAIN / EWOULDBLOCK in %s::done" % short)
         # a source that serves a datagram socket moves exactly one message per completion: after its data syscall no second data syscall
         # runs in the same iteration (a second recv concatenates two datagrams into one message / a second send splits the accounting)
         if adt in dgram_srcs:
@@ -132,7 +172,14 @@ def check(ctx):
         else:
             ctx.ob("R-SIB", f.id, "frontend/done-after-yield", False, "%s yields on an io source but never calls its done()" % f.id, f.where(sorted(ys)[0]))
         sysc = an.sites(f, SYSCALL, "must")
-        early = [s for s in sysc if s in an.reach(f, [Point(0, 0)], blocked=ys) and receiver_fields(f, f.node(s))]
+        def on_own_socket(g, t):
+            # the attempt is made on the socket this front-end wraps: a field of self, or what CoIo::inner() of such a field returns
+            if receiver_fields(g, t): return True
+            if not t["args"]: return False
+            o = simplify(trace_operand(g, t["args"][0]))
+            while o[0] in ("ref", "deref"): o = simplify(o[1])
+            return o[0] == "call" and re.search(r"co_io::CoIo::inner(_mut)?$", o[2] or "") is not None
+        early = [s for s in sysc if s in an.reach(f, [Point(0, 0)], blocked=ys) and on_own_socket(f, f.node(s))]
         if not early:
             ctx.ob("R-SIB", f.id, "frontend/reset-before-early-syscall", True, "no early non-blocking attempt in this front-end", f.where(), nontrivial=False)
             continue
@@ -143,6 +190,15 @@ def check(ctx):
         ctx.ob("R-SIB", f.id, "frontend/reset-before-early-syscall", not bad, "io_flag is reset before the early non-blocking attempt" if not bad else
                "%s resets io_flag AFTER (or not before) its early non-blocking syscall: an edge that arrives between the failed attempt and the reset is wiped, the coroutine parks with data/space available" % f.id,
                f.where((bad or early)[0]))
+        if ctx.edges(f, would_block(f, True)):
+            ctx.guarded(f.id, YIELD, would_block(f, True), "frontend/yield-only-after-would-block", "%s suspends the caller only after its early attempt reported would-block (every other error is returned)" % f.id, rule="R-SIB",
+                        pred_label="edge `err == EAGAIN/EWOULDBLOCK`")
+            # (the constructor of the io source may fail with its own error between the attempt and the yield)
+            ctor = an.sites(f, Call(r"may::io::sys::.*::new", transitive=False), "must")
+            rw = an.reach(f, [Point(tb, 0) for _, tb, _ in ctx.edges(f, would_block(f, True))], blocked=ys | ctor)
+            badw = [x for x in f.ret_points() if x in rw]
+            ctx.ob("R-SIB", f.id, "frontend/would-block-never-returned", not badw, "a would-block result of the early attempt always leads to the yield" if not badw else
+                   "%s returns on the would-block edge of its early attempt: the caller of a blocking API gets EAGAIN/WouldBlock" % f.id, f.where(badw[0]) if badw else f.where(sorted(ys)[0]))
         r2 = an.reach(f, [q for s in early for q in an.after(f, s)], blocked=ys)
         bad2 = [c for c in resets if c in r2]
         ctx.ob("R-SIB", f.id, "frontend/no-clear-after-attempt", not bad2, "nothing clears io_flag between the early attempt and the yield" if not bad2 else
@@ -256,3 +312,4 @@ def check(ctx):
                "%s:%s" % (a.get("file"), a.get("line")))
     if n_own < 6:
         ctx.missing("R-SIB", "may::io::sys::IoData", "drop-order/deregister-before-close", "expected >= 6 structs owning an IoData and an fd (TcpStream, TcpListener, UdpSocket, CoIo, 2 connectors), found %d" % n_own)
+    shared.io_helper_forwarding(ctx)
